@@ -13,11 +13,14 @@ import (
 // C09: downstream failures are contained and reported, never masked.
 
 // failure signals: the answer itself says "this failed" => errors must be non-empty
-var c09Signals = []string{"transport", "status500", "status500-validbody", "notjson", "object", "short", "long", "empty", "errors1", "errors2", "datanull", "nodata",
+var c09Signals = []string{"transport", "transport-eof", "transport-reset", "trailing-garbage", "glued", "errors-empty-datanull", "status500", "status500-validbody", "notjson", "object", "short", "long", "empty", "errors1", "errors2", "datanull", "nodata",
 	"nonode", "nodestring", "nodelist", "nodenumber"}
 
 // shape faults: values whose shape contradicts the schema => contained, nothing invented
 var c09Shapes = []string{"entry-scalar", "entry-null", "obj-scalar", "obj-list", "obj-empty-list", "list-object", "list-null", "no-id", "foreign-id", "field-null"}
+
+// benign: a healthy answer in an unusual but valid spelling => the client's answer is the fault-free one
+var c09Benign = []string{"errors-empty-ok"}
 
 func isSignal(k string) bool {
 	for _, s := range c09Signals {
@@ -122,7 +125,7 @@ func init() {
 			fmt.Sscan(opset[len(opset)-1:], &k)
 			ops := GenOps(f.Merged, f.W, k)
 			follow := Case{Q: "{ n1s { id name phone } }", Vars: map[string]interface{}{}}
-			kindsAll := append(append([]string{}, c09Signals...), c09Shapes...)
+			kindsAll := append(append(append([]string{}, c09Signals...), c09Shapes...), c09Benign...)
 			idx := 0
 			for _, o := range ops {
 				if strings.Contains(o.Q, "node(id:") {
@@ -130,7 +133,7 @@ func init() {
 				}
 				f.Fakes.FaultFor = nil
 				f.Fakes.Reset()
-				f.Post(caseBody(o), "application/json")
+				_, body0 := f.Post(caseBody(o), "application/json")
 				calls := append([]HTTPCall{}, f.Fakes.Calls...)
 				type fpos struct {
 					call, pos int
@@ -140,7 +143,7 @@ func init() {
 				for ci, hc := range calls {
 					for pos := 0; pos < hc.Size; pos++ {
 						for _, kind := range kindsAll {
-							if pos > 0 && (kind == "transport" || kind == "status500" || kind == "status500-validbody" || kind == "notjson" || kind == "object" || kind == "short" || kind == "long" || kind == "empty") {
+							if pos > 0 && (kind == "transport" || kind == "transport-eof" || kind == "transport-reset" || kind == "trailing-garbage" || kind == "glued" || kind == "status500" || kind == "status500-validbody" || kind == "notjson" || kind == "object" || kind == "short" || kind == "long" || kind == "empty") {
 								continue // call-level faults do not depend on the position
 							}
 							plans = append(plans, []fpos{{ci, pos, kind}})
@@ -205,6 +208,9 @@ func init() {
 						continue
 					}
 					sigs := c09Check(f, status, body, kinds, hit, applied)
+					if len(plan) == 1 && plan[0].kind == "errors-empty-ok" && canonJSON(body) != canonJSON(body0) {
+						sigs = append(sigs, "a healthy answer that carries an empty errors list changes the client's answer")
+					}
 					// later requests are unaffected
 					fo := f.Run(follow)
 					if fs := c01Sigs(fo); len(fs) > 0 {
@@ -222,4 +228,13 @@ func init() {
 			_ = gqlref.Norm
 		},
 	}
+}
+
+func canonJSON(b []byte) string {
+	var v interface{}
+	if json.Unmarshal(b, &v) != nil {
+		return string(b)
+	}
+	o, _ := json.Marshal(gqlref.Norm(v))
+	return string(o)
 }
